@@ -4,6 +4,20 @@ import z3
 Elem = z3.DeclareSort('Elem')
 NONE_ELEM = z3.Const('NoneElem', Elem)
 
+STR_ELEMS = {}
+
+
+def str_elem(text):
+    if text not in STR_ELEMS:
+        STR_ELEMS[text] = z3.Const('str:' + text, Elem)
+    return STR_ELEMS[text]
+
+
+def str_distinct():
+    cs = list(STR_ELEMS.values()) + [NONE_ELEM]
+    return z3.Distinct(cs) if len(cs) >= 2 else None
+
+
 _ctr = [0]
 
 
@@ -66,6 +80,12 @@ class VElem(V):
         return 'VElem(%s)' % self.t
 
 
+class VDunder(V):
+    """The string '__%s__' % op for a symbolic operator name op."""
+    def __init__(self, op):
+        self.op = op
+
+
 class VTuple(V):
     def __init__(self, items):
         self.items = list(items)
@@ -89,6 +109,13 @@ class VList(V):
 
     def __repr__(self):
         return 'VList(#%d)' % self.ref
+
+
+class VBlocks(V):
+    """A Python list of row-blocks whose only consumer is np.vstack / np.concatenate: represented by its flattening
+    (a list value) and the number of blocks appended."""
+    def __init__(self, ref):
+        self.ref = ref        # heap object with fields 'flat' (VList) and 'count' (VInt)
 
 
 class VRange(V):
@@ -178,6 +205,8 @@ def parse_type(s):
             return ('list', args()[0])
         if name == 'arr':
             return ('arr', args()[0])
+        if name == 'blocks':
+            return ('blocks', args()[0])
         if name == 'tuple':
             return ('tuple', args())
         if name == 'opt':
@@ -331,6 +360,8 @@ def flatten(et, v):
     if et == 'elem':
         if isinstance(v, VNone):
             return [NONE_ELEM]
+        if isinstance(v, VStr):
+            return [str_elem(v.s)]
         if not isinstance(v, VElem):
             raise TypeMismatch('expected elem, got %r' % (v,))
         return [v.t]
@@ -361,7 +392,7 @@ def infer_etype(v):
         return 'bool'
     if isinstance(v, VReal):
         return 'real'
-    if isinstance(v, VElem):
+    if isinstance(v, (VElem, VStr)):
         return 'elem'
     if isinstance(v, VNone):
         return 'none'
